@@ -211,37 +211,68 @@ theorem empty_by_list_is_lost (x : StrIn) (h : x.orig.bymonthday = some []) :
     constructor arguments that build exactly `r` again, hence the same occurrences.  All hypotheses are explicit; the
     first is the class of the known finding D-C13-empty-by-list (there the statement is false on the real code), and the
     date values are taken over unchanged (`backArgs`): that `parser.parse` reads the compact text back is C02, tied here
-    by the correspondence and the oracle only. -/
+    by the correspondence and the oracle only.  (`strInOf 0`: `calendar.firstweekday()` is 0, the interpreter's default;
+    `str_roundtrip_rule_ambient` is the statement for every ambient value.) -/
 theorem str_roundtrip_rule (a : RRule.Args) (r : RRule.Rule) (h : RRule.construct a = .ok r) (hsp : a.bysetpos ≠ some [])
-    (hne : NoEmptyBy (RRule.origArgs a r)) (hpr : Printable (strInOf (RRule.origArgs a r)))
+    (hne : NoEmptyBy (RRule.origArgs a r)) (hpr : Printable (strInOf 0 (RRule.origArgs a r)))
     (hf : 0 ≤ (RRule.origArgs a r).freq)
     (o : Opts) (hu : o.unfold = false) (hfs : o.forceset = false) (hc : o.compatible = false) (kw : Bool) :
-    ∃ pa dt, parseRfc (toStr (strInOf (RRule.origArgs a r))) o kw = .ok (.rule pa (some dt) o.cache) ∧
+    ∃ pa dt, parseRfc (toStr (strInOf 0 (RRule.origArgs a r))) o kw = .ok (.rule pa (some dt) o.cache) ∧
       RRule.construct (backArgs (RRule.origArgs a r) pa) = .ok r :=
   parse_toStr_constructs_same_rule a r h hsp hne hpr hf o hu hfs hc kw
 
-/-- **the same with the process-wide `calendar.firstweekday()` as an explicit input** (`constructW k`, C01).  `str_roundtrip*`
-    and `str_roundtrip_rule` above are the case `k = 0` (the interpreter's default).  Under `calendar.setfirstweekday(k)` the
-    rule comes back exactly when `r.wkst ≠ 0 ∨ k = 0`: `__str__` omits WKST when `_wkst == 0`, so a Monday-week rule is
-    rebuilt with the ambient week start — known finding D-C13-ambient-wkst, `ambient_wkst_counterexample`.  (The one-line
-    repair, printing `WKST=MO` too, changes the text of every `str(rule)` and `tests/test_rrule.py::testStrAppendRRULEToken`
-    pins that text, so it is listed, not fixed.) -/
+/-- **the same with the process-wide `calendar.firstweekday()` as an explicit input** (`constructW k`, C01; `strInOf k`:
+    `__str__` reads it too since the repair of D-C13-ambient-wkst: `if self._wkst or calendar.firstweekday():`).
+    `str_roundtrip*` and `str_roundtrip_rule` above are the case `k = 0` (the interpreter's default).  Under
+    `calendar.setfirstweekday(k)` the rule comes back for EVERY `k` and every week start — the former hypothesis
+    `r.wkst ≠ 0 ∨ k = 0` (known finding D-C13-ambient-wkst: `__str__` omitted WKST whenever `_wkst == 0`, so a Monday-week
+    rule was rebuilt with the ambient week start) is gone. -/
 theorem str_roundtrip_rule_ambient (k : Int) (a : RRule.Args) (r : RRule.Rule) (h : RRule.constructW k a = .ok r)
     (hsp : a.bysetpos ≠ some [])
-    (hne : NoEmptyBy (RRule.origArgs (RRule.resolveW k a) r)) (hpr : Printable (strInOf (RRule.origArgs (RRule.resolveW k a) r)))
-    (hf : 0 ≤ (RRule.origArgs (RRule.resolveW k a) r).freq) (hw : r.wkst ≠ 0 ∨ k = 0)
+    (hne : NoEmptyBy (RRule.origArgs (RRule.resolveW k a) r)) (hpr : Printable (strInOf k (RRule.origArgs (RRule.resolveW k a) r)))
+    (hf : 0 ≤ (RRule.origArgs (RRule.resolveW k a) r).freq)
     (o : Opts) (hu : o.unfold = false) (hfs : o.forceset = false) (hc : o.compatible = false) (kw : Bool) :
-    ∃ pa dt, parseRfc (toStr (strInOf (RRule.origArgs (RRule.resolveW k a) r))) o kw = .ok (.rule pa (some dt) o.cache) ∧
+    ∃ pa dt, parseRfc (toStr (strInOf k (RRule.origArgs (RRule.resolveW k a) r))) o kw = .ok (.rule pa (some dt) o.cache) ∧
       RRule.constructW k (backArgs (RRule.origArgs (RRule.resolveW k a) r) pa) = .ok r :=
-  parse_toStr_constructs_same_rule_ambient k a r h hsp hne hpr hf hw o hu hfs hc kw
+  parse_toStr_constructs_same_rule_ambient k a r h hsp hne hpr hf o hu hfs hc kw
 
-/-- the excluded case `_wkst = 0 ∧ k ≠ 0` is real: WEEKLY, interval 2, BYDAY=TU,SU, explicit wkst=MO, ambient 6: the rebuilt
-    rule has week start 6 and is a different rule -/
-theorem ambient_wkst_counterexample :
+/-- **written under ambient `k`, read under ambient `k'`**: the rule comes back whenever the text carries WKST
+    (`r.wkst ≠ 0 ∨ k ≠ 0`: then the reader's `calendar.firstweekday()` is irrelevant) or the reader's week starts on Monday
+    (`k' = 0`).  The remaining case — a Monday-week rule printed under the default first weekday and read under another one —
+    is `cross_ambient_counterexample`: there the text has no WKST (RFC 5545's default is MO; `rrule()` documents
+    `calendar.firstweekday()` as its default), and the property's "rrulestr(str(rule))" is read as one process state. -/
+theorem str_roundtrip_rule_cross_ambient (k k' : Int) (a : RRule.Args) (r : RRule.Rule) (h : RRule.constructW k a = .ok r)
+    (hsp : a.bysetpos ≠ some [])
+    (hne : NoEmptyBy (RRule.origArgs (RRule.resolveW k a) r)) (hpr : Printable (strInOf k (RRule.origArgs (RRule.resolveW k a) r)))
+    (hf : 0 ≤ (RRule.origArgs (RRule.resolveW k a) r).freq) (hw : r.wkst ≠ 0 ∨ k ≠ 0 ∨ k' = 0)
+    (o : Opts) (hu : o.unfold = false) (hfs : o.forceset = false) (hc : o.compatible = false) (kw : Bool) :
+    ∃ pa dt, parseRfc (toStr (strInOf k (RRule.origArgs (RRule.resolveW k a) r))) o kw = .ok (.rule pa (some dt) o.cache) ∧
+      RRule.constructW k' (backArgs (RRule.origArgs (RRule.resolveW k a) r) pa) = .ok r :=
+  parse_toStr_constructs_same_rule_cross k k' a r h hsp hne hpr hf hw o hu hfs hc kw
+
+/-- the former counterexample of D-C13-ambient-wkst as a regression fact: WEEKLY, interval 2, BYDAY=TU,SU, explicit wkst=MO,
+    ambient 6: the text now carries `WKST=MO` (`some 0`), the rebuilt rule has week start 0 and is the same rule
+    (before the repair: `(0, 6, …, false)`) -/
+theorem ambient_wkst_witness_roundtrips :
     (do let r ← RRule.constructW 6 ambientWitness
         let o := RRule.origArgs (RRule.resolveW 6 ambientWitness) r
-        let r' ← RRule.constructW 6 (backArgs o (argsOf {} (strInOf o)))
-        pure (r.wkst, r'.wkst, decide (r' = r))) = .ok (0, 6, false) := RRuleStr.ambient_wkst_counterexample
+        let r' ← RRule.constructW 6 (backArgs o (argsOf {} (strInOf 6 o)))
+        pure (r.wkst, r'.wkst, (argsOf {} (strInOf 6 o)).wkst, decide (r' = r))) = .ok (0, 0, some 0, true) :=
+  RRuleStr.ambient_wkst_witness_roundtrips
+
+/-- the case `str_roundtrip_rule_cross_ambient` excludes is real: the same rule printed under ambient 0 and read under ambient 6 -/
+theorem cross_ambient_counterexample :
+    (do let r ← RRule.constructW 0 ambientWitness
+        let o := RRule.origArgs (RRule.resolveW 0 ambientWitness) r
+        let r' ← RRule.constructW 6 (backArgs o (argsOf {} (strInOf 0 o)))
+        pure (r.wkst, r'.wkst, decide (r' = r))) = .ok (0, 6, false) := RRuleStr.cross_ambient_counterexample
+
+-- non-vacuity of the ambient statement in the formerly excluded case: `_wkst = 0`, `k = 6`, every hypothesis holds
+example : ∃ r, RRule.constructW 6 ambientWitness = .ok r ∧ r.wkst = 0 ∧
+    NoEmptyBy (RRule.origArgs (RRule.resolveW 6 ambientWitness) r) ∧
+    0 ≤ (RRule.origArgs (RRule.resolveW 6 ambientWitness) r).freq := by
+  refine ⟨_, rfl, by decide +kernel, ?_, by decide +kernel⟩
+  constructor <;> decide +kernel
 
 /-- a rule with most things in it: nth weekdays of both signs, negative list members, WKST, INTERVAL, UNTIL, year < 1000 -/
 def sample : StrIn :=
